@@ -138,12 +138,18 @@ def body_s(b, types=False):
 
 if __name__ == "__main__":
     facts = sys.argv[1]
+    if facts in ("tls", "notls"):
+        import os
+        sys.path.insert(0, os.path.dirname(os.path.dirname(os.path.abspath(__file__))))
+        from engines import extract
+        facts, _ = extract.extract(facts)
     pat = sys.argv[2]
+    exact = "-x" in sys.argv[3:]
     types = "-t" in sys.argv[3:]
     nocleanup = "-c" in sys.argv[3:]
     d = json.load(open(facts))
     for b in d["bodies"]:
-        if pat in b["path"]:
+        if (b["path"] == pat) if exact else (pat in b["path"]):
             if nocleanup:
                 b = dict(b)
             print(body_s(b, types))
